@@ -13,3 +13,4 @@ import SplinkVerif.Model.GraphMetrics
 import SplinkVerif.Model.Cache
 import SplinkVerif.Model.Descriptive
 import SplinkVerif.Model.Accuracy
+import SplinkVerif.Model.Serialise
